@@ -168,8 +168,38 @@ class Guards:
             if a:
                 self.atoms_seen.add(a.lstrip("!"))
         self._adders: Optional[Dict[str, List[int]]] = None
+        self._edges_of: Dict[frozenset, Dict[int, List[int]]] = {}      # nodes reached under a valuation -> feasible predecessor map
+        self._defnodes: Optional[Dict[str, Set[int]]] = None
 
     # -- helpers
+    def _defs(self, rd, at: int, name: str, seen: Optional[Set[int]], vkey=None) -> Set[int]:
+        """definitions of `name` that reach node `at`; when the edges followed under the valuation are known, only along those (a
+        definition that is overwritten on every path the valuation leaves open does not reach)"""
+        allr = rd.defs_reaching(at, name)
+        if seen is None:
+            return allr
+        preds = self._edges_of.get((vkey, frozenset(seen))) if vkey is not None else None
+        if preds is None:
+            return {d for d in allr if d in seen}
+        if self._defnodes is None:
+            self._defnodes = {}
+            for n in self.g.nodes():
+                names = set(rd.params) if n == self.g.entry else C.defs_of(self.g.stmt[n])
+                for x in names:
+                    self._defnodes.setdefault(x, set()).add(n)
+        dn = self._defnodes.get(name, set())
+        out, done, stack = set(), set(), list(preds.get(at, []))
+        while stack:
+            u = stack.pop()
+            if u in done:
+                continue
+            done.add(u)
+            if u in dn:
+                out.add(u)
+                continue
+            stack.extend(preds.get(u, []))
+        return out & allr
+
     def _content_adders(self) -> Dict[str, List[int]]:
         if self._adders is None:
             self._adders = {}
@@ -191,7 +221,12 @@ class Guards:
                     self._adders.setdefault(st.target.id, []).append(n)
         return self._adders
 
+    @staticmethod
+    def _vkey(valuation) -> frozenset:
+        return frozenset(valuation.items())
+
     def _val(self, valuation: Dict[str, bool], seen: Optional[Set[int]]):
+        vkey = self._vkey(valuation)
         rd = rd_of(self.f)
         g = self.g
         memo: Dict[int, Optional[bool]] = {}
@@ -224,7 +259,7 @@ class Guards:
                     is_it = _is_none
                     cannot_be = lambda o: (isinstance(o, ast.Constant) and o.value is not None) or isinstance(
                         o, (ast.List, ast.Dict, ast.Set, ast.Tuple, ast.ListComp, ast.SetComp, ast.DictComp, ast.JoinedStr, ast.Compare))
-                origins = self._origins(x, nx, seen, rd, 0)
+                origins = self._origins(x, nx, seen, rd, 0, vkey)
                 if origins is not None:
                     if all(is_it(o) for o in origins):
                         return isinstance(e.ops[0], ast.Is)
@@ -240,9 +275,7 @@ class Guards:
                 if n is None:
                     return None
                 vals = set()
-                for d in rd.defs_reaching(n, e.id):
-                    if d not in seen:
-                        continue
+                for d in self._defs(rd, n, e.id, seen, vkey):
                     st = g.stmt[d]
                     if isinstance(st, (ast.Assign, ast.AnnAssign)) and st.value is not None and \
                             (isinstance(st, ast.AnnAssign) or (len(st.targets) == 1 and isinstance(st.targets[0], ast.Name))):
@@ -256,14 +289,12 @@ class Guards:
 
         return val
 
-    def _origins(self, x: ast.Name, at: int, seen: Set[int], rd, depth: int):
+    def _origins(self, x: ast.Name, at: int, seen: Set[int], rd, depth: int, vkey=None):
         """the defining expressions of a local name reachable under the valuation (copies followed); None when not resolvable"""
         if depth > 6:
             return None
         out = []
-        for d in rd.defs_reaching(at, x.id):
-            if d not in seen:
-                continue
+        for d in self._defs(rd, at, x.id, seen, vkey):
             st = self.g.stmt[d]
             if d == self.g.entry or not isinstance(st, (ast.Assign, ast.AnnAssign)) or st.value is None:
                 return None
@@ -271,7 +302,7 @@ class Guards:
                 return None
             v = st.value
             if isinstance(v, ast.Name) and rd.defs_reaching(d, v.id):
-                sub = self._origins(v, d, seen, rd, depth + 1)
+                sub = self._origins(v, d, seen, rd, depth + 1, vkey)
                 if sub is None:
                     return None
                 out += sub
@@ -337,7 +368,16 @@ class Guards:
     def reach(self, valuation: Dict[str, bool], avoid: Iterable[int] = (), start: Optional[int] = None) -> Set[int]:
         g = self.g
         avoid = set(avoid)
-        seen = C.reach_under(g, self._val(valuation, None), start=start, avoid=avoid)
+        def remember(nodes, edges):
+            if start is None and not avoid:       # from a later start (or around avoided nodes) definitions made elsewhere would be lost
+                preds: Dict[int, List[int]] = {}
+                for a, b in edges:
+                    preds.setdefault(b, []).append(a)
+                self._edges_of[(self._vkey(valuation), frozenset(nodes))] = preds
+
+        edges: Set[Tuple[int, int]] = set()
+        seen = C.reach_under(g, self._val(valuation, None), start=start, avoid=avoid, edges=edges)
+        remember(seen, edges)
         for _ in range(6):
             val = self._val(valuation, seen)
             dead_loops = set()
@@ -345,10 +385,13 @@ class Guards:
                 st = g.stmt[n]
                 if g.kind[n] == "loop" and isinstance(st, ast.For) and self._empty(st.iter, n, val, seen):
                     dead_loops.add(n)
-            new = C.reach_under(g, val, start=start, avoid=avoid, no_iter=dead_loops)
+            edges = set()
+            new = C.reach_under(g, val, start=start, avoid=avoid, no_iter=dead_loops, edges=edges)
             if new == seen:
+                remember(new, edges)
                 break
             seen = new
+            remember(seen, edges)
         return seen
 
     def reaches_expr(self, valuation: Dict[str, bool], expr: ast.AST, avoid: Iterable[int] = (), seen: Optional[Set[int]] = None) -> bool:
